@@ -1,2 +1,293 @@
-import ColaVerif.Lemmas.OpMatmat
-#print axioms Op.rmm_eq
+import ColaVerif.Lemmas.AnnotSound
+import ColaVerif.Lemmas.OpAlgebra
+import Mathlib.Analysis.Complex.Basic
+
+/-!
+# C05 — reported structural annotations are true of the represented matrix
+
+`A.anns` : the code model of the `annotations` attribute (`get_annotations` of
+`cola/annotations.py` + declarations `cola.PSD(A)` … = `annot a A`); `A.den` : the represented
+matrix; `Holds a n m D` : the `n × m` window of `D` is Hermitian / PSD / has orthonormal columns /
+is unitary (Mathlib's `IsHermitian`, `PosSemidef`, `Dᴴ D = 1`, `D Dᴴ = 1` through the bridge
+`MatF.toMatrix`).  Carrier: any `𝕜` with `[RCLike 𝕜]` (ℝ and ℂ at once).
+
+Hypotheses of the main theorem (all named, all inherited by every node of the tree):
+* `A.wf` — constructor preconditions;
+* `A.LeavesTrue` — the user's own declarations are true;
+* `A.NoScalarTimesAnnotated` — **clause** (defect of the inference, `C05_clause_needed`): no
+  `Product` node has both a `ScalarMul` member and exactly one non-scalar member with a non-empty
+  annotation set (the code returns that member's annotations unchanged, e.g. for `(-2) · PSD`);
+* `A.GramTransposeReal` — at a Gram pattern `A.T @ A` / `A @ A.T` (accepted by the code only for
+  a real dtype) the payload of the member really is real.  The carrier of the model is one field
+  for all dtypes, so the dtype tag alone does not say this (`C05_gramReal_needed`); it follows
+  from `Op.RealTyped` (`C05_sound_realTyped`), the typing hypothesis also used by C02.
+-/
+
+open scoped ComplexOrder
+
+/-! ## glue: `RealTyped` gives the `GramTransposeReal` clause -/
+
+namespace Op
+variable {𝕜 : Type} [RCLike 𝕜] [DecidableEq 𝕜]
+
+omit [RCLike 𝕜] in
+theorem gramViaTranspose_real {A1 A2 : Op 𝕜} (h : gramViaTranspose [A1, A2] = true) :
+    A1.dtype.isComplex = false := by
+  simp only [gramViaTranspose, gramB, Bool.and_eq_true, Bool.or_eq_true, Bool.not_eq_true'] at h
+  rcases h.1.2 with h1 | h1
+  · exact h1
+  · rcases h.2 with h2 | h2
+    · simp [h2] at h1
+    · simp [h2] at h1
+
+theorem gramTransposeReal_of_realTyped : ∀ (A : Op 𝕜), A.RealTyped → A.wf = true →
+    A.GramTransposeReal
+  | dense .., _, _ => by simp only [GramTransposeReal]
+  | tri .., _, _ => by simp only [GramTransposeReal]
+  | sparse .., _, _ => by simp only [GramTransposeReal]
+  | scalar .., _, _ => by simp only [GramTransposeReal]
+  | eye .., _, _ => by simp only [GramTransposeReal]
+  | diag .., _, _ => by simp only [GramTransposeReal]
+  | tridiag .., _, _ => by simp only [GramTransposeReal]
+  | perm .., _, _ => by simp only [GramTransposeReal]
+  | house .., _, _ => by simp only [GramTransposeReal]
+  | prod Ms, hr, hw => by
+    simp only [RealTyped] at hr
+    simp only [Op.wf, Bool.and_eq_true] at hw
+    simp only [GramTransposeReal]
+    refine ⟨?_, fun M hM => gramTransposeReal_of_realTyped M (hr M hM) (wf_members hw.1.2 M hM)⟩
+    intro hg A1 hA1
+    match Ms, hg, hA1 with
+    | [B1, B2], hg, hA1 =>
+      simp only [List.head?_cons, Option.mem_def, Option.some.injEq] at hA1
+      subst hA1
+      have hd := gramViaTranspose_real hg
+      exact den_star_fixed B1 (hr B1 List.mem_cons_self)
+        (wf_members hw.1.2 B1 List.mem_cons_self) (by simp [hd])
+  | sum Ms, hr, hw => by
+    simp only [RealTyped] at hr
+    simp only [Op.wf, Bool.and_eq_true] at hw
+    simp only [GramTransposeReal]
+    exact fun M hM => gramTransposeReal_of_realTyped M (hr M hM) (wf_members hw.1.2 M hM)
+  | kron Ms, hr, hw => by
+    simp only [RealTyped] at hr
+    simp only [Op.wf, Bool.and_eq_true] at hw
+    simp only [GramTransposeReal]
+    exact fun M hM => gramTransposeReal_of_realTyped M (hr M hM) (wf_members hw.2 M hM)
+  | kronsum Ms, hr, hw => by
+    simp only [RealTyped] at hr
+    simp only [Op.wf, Bool.and_eq_true] at hw
+    simp only [GramTransposeReal]
+    exact fun M hM => gramTransposeReal_of_realTyped M (hr M hM) (wf_members hw.1.2 M hM)
+  | bdiag Ms mults, hr, hw => by
+    simp only [RealTyped] at hr
+    simp only [Op.wf, Bool.and_eq_true] at hw
+    simp only [GramTransposeReal]
+    exact fun M hM => gramTransposeReal_of_realTyped M (hr M hM) (wf_members hw.1.2 M hM)
+  | concat ax Ms, hr, hw => by
+    simp only [RealTyped] at hr
+    simp only [Op.wf, Bool.and_eq_true] at hw
+    simp only [GramTransposeReal]
+    exact fun M hM => gramTransposeReal_of_realTyped M (hr M hM) (wf_members hw.1.2 M hM)
+  | transpose A, hr, hw => by
+    simp only [RealTyped] at hr
+    simp only [Op.wf] at hw
+    simp only [GramTransposeReal]
+    exact gramTransposeReal_of_realTyped A hr hw
+  | adjoint A, hr, hw => by
+    simp only [RealTyped] at hr
+    simp only [Op.wf] at hw
+    simp only [GramTransposeReal]
+    exact gramTransposeReal_of_realTyped A hr hw
+  | sliced A s0 s1, hr, hw => by
+    simp only [RealTyped] at hr
+    simp only [Op.wf, Bool.and_eq_true] at hw
+    simp only [GramTransposeReal]
+    exact gramTransposeReal_of_realTyped A hr hw.1.1
+  | generic A, hr, hw => by
+    simp only [RealTyped] at hr
+    simp only [Op.wf] at hw
+    simp only [GramTransposeReal]
+    exact gramTransposeReal_of_realTyped A hr hw
+  | annot a A, hr, hw => by
+    simp only [RealTyped] at hr
+    simp only [Op.wf] at hw
+    simp only [GramTransposeReal]
+    exact gramTransposeReal_of_realTyped A hr hw
+termination_by A => sizeOf A
+
+end Op
+
+namespace C05
+open Op
+variable {𝕜 : Type} [RCLike 𝕜]
+
+/-! ## the annotation subclass order used by `isa` -/
+
+/-- PSD ≤ SelfAdjoint -/
+theorem C05_psd_selfAdjoint {n m : Nat} {D : MatF 𝕜} (h : Holds .psd n m D) :
+    Holds .selfAdjoint n m D := h.psd_selfAdjoint
+
+/-- Unitary ≤ Stiefel -/
+theorem C05_unitary_stiefel {n m : Nat} {D : MatF 𝕜} (h : Holds .unitary n m D) :
+    Holds .stiefel n m D := h.unitary_stiefel
+
+/-! ## soundness -/
+
+variable [DecidableEq 𝕜]
+
+/-- **C05 (main theorem).**  For every well-formed operator tree whose declared annotations are
+true, outside the two named clauses, every annotation the operator reports — inferred for a
+composite or attached by a library routine — holds of the represented matrix. -/
+theorem C05_sound_partial (A : Op 𝕜) (hwf : A.wf = true) (hl : A.LeavesTrue)
+    (hc : A.NoScalarTimesAnnotated) (hg : A.GramTransposeReal) :
+    ∀ a ∈ A.anns, Holds a A.rows A.cols A.den.f :=
+  anns_sound A ⟨hwf, hl, hc, hg⟩
+
+/-- the same with the typing hypothesis `RealTyped` of C02 in place of `GramTransposeReal` -/
+theorem C05_sound_realTyped (A : Op 𝕜) (hwf : A.wf = true) (hl : A.LeavesTrue)
+    (hc : A.NoScalarTimesAnnotated) (hr : A.RealTyped) :
+    ∀ a ∈ A.anns, Holds a A.rows A.cols A.den.f :=
+  C05_sound_partial A hwf hl hc (gramTransposeReal_of_realTyped A hr hwf)
+
+/-- what `isa` answers (through the subclass order PSD ≤ SelfAdjoint, Unitary ≤ Stiefel) is true -/
+theorem C05_isa (A : Op 𝕜) (hwf : A.wf = true) (hl : A.LeavesTrue)
+    (hc : A.NoScalarTimesAnnotated) (hg : A.GramTransposeReal) (a : Ann)
+    (h : A.isa a = true) : Holds a A.rows A.cols A.den.f := by
+  simp only [Op.isa, AnnSet.isa, List.any_eq_true] at h
+  obtain ⟨x, hx, hsub⟩ := h
+  have hxh := C05_sound_partial A hwf hl hc hg x hx
+  cases x <;> cases a <;> simp [Ann.sub] at hsub
+  · exact hxh
+  · exact hxh.psd_selfAdjoint
+  · exact hxh
+  · exact hxh
+  · exact hxh.unitary_stiefel
+  · exact hxh
+
+/-- **the hypothesis `HermOK` of C01 / C02 is discharged**: every node of the tree that reports
+`SelfAdjoint` (directly or through `PSD`) is square and Hermitian on its window. -/
+theorem C05_hermOK (A : Op 𝕜) (hwf : A.wf = true) (hl : A.LeavesTrue)
+    (hc : A.NoScalarTimesAnnotated) (hg : A.GramTransposeReal) : A.HermOK :=
+  hermOK_of_soundHyp A ⟨hwf, hl, hc, hg⟩
+
+theorem C05_hermOK_realTyped (A : Op 𝕜) (hwf : A.wf = true) (hl : A.LeavesTrue)
+    (hc : A.NoScalarTimesAnnotated) (hr : A.RealTyped) : A.HermOK :=
+  C05_hermOK A hwf hl hc (gramTransposeReal_of_realTyped A hr hwf)
+
+/-- **declaring** an annotation yields an operator with the same shape and the same action whose
+annotation set is the union (the operand is a sub-term, it is not altered). -/
+theorem C05_declare (a : Ann) (A : Op 𝕜) :
+    (annot a A).den = A.den ∧ (annot a A).rows = A.rows ∧ (annot a A).cols = A.cols ∧
+      ∀ x, x ∈ (annot a A).anns ↔ x ∈ A.anns ∨ x = a := by
+  refine ⟨by simp only [Op.den], by simp only [Op.rows], by simp only [Op.cols], fun x => ?_⟩
+  simp only [Op.anns]
+  rw [AnnSet.mem_union, List.mem_singleton]
+
+omit [DecidableEq 𝕜] in
+/-- a true declaration keeps `LeavesTrue` -/
+theorem C05_declare_leaves (a : Ann) (A : Op 𝕜) (hl : A.LeavesTrue)
+    (ha : Holds a A.rows A.cols A.den.f) : (annot a A).LeavesTrue := by
+  simp only [LeavesTrue]
+  exact ⟨ha, hl⟩
+
+/-! ## the clauses are needed -/
+
+/-- `(-2) · PSD(1×1 [1])` as cola builds it: `Product[ScalarMul, PSD-declared Dense]` -/
+noncomputable def scalarWitness : Op ℝ :=
+  .prod [.scalar .f64 (-2) 1, .annot .psd (.dense .f64 1 1 (fun _ _ => 1))]
+
+/-- **the clause `NoScalarTimesAnnotated` is needed**: on `scalarWitness` every other hypothesis
+holds, the operator reports `PSD`, and the represented matrix `[-2]` is not PSD. -/
+theorem C05_clause_needed :
+    scalarWitness.wf = true ∧ scalarWitness.LeavesTrue ∧ scalarWitness.GramTransposeReal ∧
+      scalarWitness.scalarTimesAnnotated = true ∧ Ann.psd ∈ scalarWitness.anns ∧
+      ¬ Holds .psd scalarWitness.rows scalarWitness.cols scalarWitness.den.f := by
+  refine ⟨?_, ?_, ?_, ?_, ?_, ?_⟩
+  · simp [scalarWitness, Op.wf, Op.rows, Op.cols, chainOk]
+  · simp only [scalarWitness, LeavesTrue, List.mem_cons, List.not_mem_nil, or_false,
+      forall_eq_or_imp, forall_eq, true_and, and_true, Op.rows, Op.cols, Op.den, MatV.of_f]
+    exact Holds.congr (fun i j hi hj => by simp [eyeM]; omega) (holds_eyeM .psd 1)
+  · simp [scalarWitness, GramTransposeReal, gramViaTranspose, gramB, isTA, isT, core]
+  · simp [scalarWitness, Op.scalarTimesAnnotated, prodScalarDefect, isScalarMul, core, Op.anns,
+      AnnSet.union]
+  · rw [scalarWitness, anns_prod]
+    simp [gramB, isTA, isT, core, isScalarMul, Op.anns, AnnSet.union]
+  · intro h
+    have h0 := h.2.diag_nonneg (i := ⟨0, by simp [scalarWitness, Op.rows]⟩)
+    simp [scalarWitness, Op.den, Op.rows, Op.cols, mmul, sumTo, eyeM] at h0
+    linarith
+
+/-- a `Dense` tagged `f64` whose payload is the complex number `i`, times its `Transpose` -/
+noncomputable def gramWitness : Op ℂ :=
+  .prod [.dense .f64 1 1 (fun _ _ => Complex.I),
+    .transpose (.dense .f64 1 1 (fun _ _ => Complex.I))]
+
+/-- **the clause `GramTransposeReal` is needed** (in the model, where the dtype tag does not
+constrain the carrier): `gramWitness` satisfies every other hypothesis, reports `PSD` through the
+Gram pattern, and represents `[i · i] = [-1]`. -/
+theorem C05_gramReal_needed :
+    gramWitness.wf = true ∧ gramWitness.LeavesTrue ∧ gramWitness.scalarTimesAnnotated = false ∧
+      Ann.psd ∈ gramWitness.anns ∧
+      ¬ Holds .psd gramWitness.rows gramWitness.cols gramWitness.den.f := by
+  refine ⟨?_, ?_, ?_, ?_, ?_⟩
+  · simp [gramWitness, Op.wf, Op.rows, Op.cols, chainOk]
+  · simp [gramWitness, LeavesTrue]
+  · simp [gramWitness, Op.scalarTimesAnnotated, prodScalarDefect, isScalarMul, core]
+  · rw [gramWitness, anns_prod, if_pos (by
+      simp [gramB, isTA, isT, core, areTheSame, sameObj, winEq, Op.dtype, DType.isComplex]),
+      AnnSet.mem_union]
+    exact Or.inr (by simp)
+  · intro h
+    have h0 := h.2.diag_nonneg (i := ⟨0, by simp [gramWitness, Op.rows]⟩)
+    simp [gramWitness, Op.den, Op.rows, Op.cols, mmul, sumTo, eyeM, transposeM] at h0
+    linarith
+
+/-! ## the hypotheses are satisfiable on a non-trivial tree -/
+
+/-- Kronecker product of a declared-PSD `2 × 2` leaf and a declared-PSD (and, redundantly,
+declared-SelfAdjoint) `1 × 1` leaf -/
+noncomputable def kronExample : Op ℝ :=
+  .kron [.annot .psd (.dense .f64 2 2 eyeM),
+    .annot .selfAdjoint (.annot .psd (.dense .f64 1 1 eyeM))]
+
+example : kronExample.wf = true ∧ kronExample.LeavesTrue ∧
+    kronExample.NoScalarTimesAnnotated ∧ kronExample.GramTransposeReal ∧
+    Ann.psd ∈ kronExample.anns := by
+  refine ⟨?_, ?_, ?_, ?_, ?_⟩
+  · simp [kronExample, Op.wf]
+  · simp only [kronExample, LeavesTrue, List.mem_cons, List.not_mem_nil, or_false,
+      forall_eq_or_imp, forall_eq, and_true, Op.rows, Op.cols, Op.den, MatV.of_f]
+    exact ⟨holds_eyeM .psd 2, holds_eyeM .selfAdjoint 1, holds_eyeM .psd 1⟩
+  · simp [kronExample, NoScalarTimesAnnotated, Op.scalarTimesAnnotated]
+  · simp [kronExample, GramTransposeReal]
+  · simp [kronExample, Op.anns, AnnSet.interAll, AnnSet.inter, AnnSet.union]
+
+/-- … so the main theorem applies to it: the Kronecker product really is PSD -/
+example : Holds .psd kronExample.rows kronExample.cols kronExample.den.f := by
+  have h : kronExample.wf = true ∧ kronExample.LeavesTrue ∧
+      kronExample.NoScalarTimesAnnotated ∧ kronExample.GramTransposeReal ∧
+      Ann.psd ∈ kronExample.anns := by
+    refine ⟨?_, ?_, ?_, ?_, ?_⟩
+    · simp [kronExample, Op.wf]
+    · simp only [kronExample, LeavesTrue, List.mem_cons, List.not_mem_nil, or_false,
+        forall_eq_or_imp, forall_eq, and_true, Op.rows, Op.cols, Op.den, MatV.of_f]
+      exact ⟨holds_eyeM .psd 2, holds_eyeM .selfAdjoint 1, holds_eyeM .psd 1⟩
+    · simp [kronExample, NoScalarTimesAnnotated, Op.scalarTimesAnnotated]
+    · simp [kronExample, GramTransposeReal]
+    · simp [kronExample, Op.anns, AnnSet.interAll, AnnSet.inter, AnnSet.union]
+  exact C05_sound_partial kronExample h.1 h.2.1 h.2.2.1 h.2.2.2.1 _ h.2.2.2.2
+
+end C05
+
+#print axioms C05.C05_psd_selfAdjoint
+#print axioms C05.C05_unitary_stiefel
+#print axioms C05.C05_sound_partial
+#print axioms C05.C05_sound_realTyped
+#print axioms C05.C05_isa
+#print axioms C05.C05_hermOK
+#print axioms C05.C05_hermOK_realTyped
+#print axioms C05.C05_declare
+#print axioms C05.C05_declare_leaves
+#print axioms C05.C05_clause_needed
+#print axioms C05.C05_gramReal_needed
